@@ -11,7 +11,7 @@ PY0
 python3 - <<'PY' > /tmp/sweep_jobs.txt
 import json
 for p,h,b in json.load(open('/tmp/harness_list.json')):
-    for sd in range(2, 12):
+    for sd in range(40, 46):
         print(p, h, b, sd)
 PY
 run_one() {
